@@ -371,7 +371,7 @@ fn main() {
             }
         }
     }
-    #[cfg(any(feature = "libm", feature = "std"))]
+    #[cfg(all(any(feature = "libm", feature = "std"), not(feature = "mm")))]
     {
         let mut rng = Rng(seed ^ 0xE4B);
         for i in 0..(if thorough { 60_000 } else { 6_000 }) {
